@@ -387,4 +387,15 @@ theorem typed_objects_accessors_either_mode (ber : Bool) (b : Bytes) (o : CmsDer
           exact ⟨a, ps, rfl, hp, hl⟩
       · cases h
 
+/-! the extension is proper: an indefinite-length SEQUENCE holding a NULL, an over-long length, a constructed OCTET
+STRING in two segments and the truth value 0x01 are read in BER mode and refused in DER mode -/
+example : Der.readTlvM true [0x30, 0x80, 0x05, 0x00, 0x00, 0x00, 0xAA] = some (0x30, [0x05, 0x00], [0xAA]) ∧
+    Der.readTlv [0x30, 0x80, 0x05, 0x00, 0x00, 0x00, 0xAA] = none := by decide
+example : Der.readTlvM true [0x04, 0x81, 0x01, 0x07] = some (0x04, [0x07], []) ∧ Der.readTlv [0x04, 0x81, 0x01, 0x07] = none := by
+  decide
+example : Der.takePrimM true Der.tagOctetString [0x24, 0x06, 0x04, 0x01, 0x0A, 0x04, 0x01, 0x0B] = some ([0x0A, 0x0B], []) ∧
+    Der.takePrim Der.tagOctetString [0x24, 0x06, 0x04, 0x01, 0x0A, 0x04, 0x01, 0x0B] = none := by decide
+example : (match CertDer.takeOptBoolM true [0x01, 0x01, 0x01] with | .ok x _ => x | _ => false) = true ∧
+    (match CertDer.takeOptBool [0x01, 0x01, 0x01] with | .bad => true | _ => false) = true := by decide
+
 end Rpki.Props.C04
